@@ -17,6 +17,8 @@ from __future__ import annotations
 
 import ast
 
+from sa.core import register_cache  # noqa: E402
+
 from sa.cfg import CFG, ReachingDefs
 from sa.core import AnalysisError, attr_chain, enclosing, norm, parents, resolve_callee, src, walk_no_nested
 from sa.exh import find_chains
@@ -766,7 +768,7 @@ def _leading_tag(e):
     return None
 
 
-_MODULE_CONSTS = {}
+_MODULE_CONSTS = register_cache({})
 
 
 def r10(p, rep):
